@@ -362,6 +362,20 @@ class ResultLike:
         return (ResultLike, (self.term,))
 
 
+def as_closure(fn):
+    """The same user function as a local function that closes over `fn` - what a lambda or a function defined inside
+    another function is: the standard pickle cannot serialise it, cloudpickle (by value) can."""
+    def call(*a, **kw):
+        return fn(*a, **kw)
+
+    call.__name__ = fn.__name__
+    call.__qualname__ = f"make.<locals>.{fn.__name__}"
+    call.__signature__ = fn.__signature__
+    call.__annotations__ = {}
+    call.outer = fn.outer
+    return call
+
+
 class AwaitLike:
     """A user value that happens to be awaitable (a handle to remote work, say): a value like any other - nobody may
     await it on the user's behalf."""
